@@ -39,7 +39,8 @@ def run(tier, replay):
         summary, recs = pure.drive(c, bins["rd"], ["proj", d, str(s), str(n)], d)
         for rec in recs:
             key = "%s:%s" % (rec["kind"], proj_ops(rec.get("proj", {})))
-            c.violation(key, "%s (real code): doc=%s projection=%s%s" % (rec["what"], show(rec["doc"]), show(rec["proj"]),
+            c.violation(key, "%s (real code): doc=%s projection=%s%s" % (rec["what"], show(rec["doc"]) if "doc" in rec else "[%s] -> got [%s] want [%s]" % tuple(
+                            "; ".join(show(x) for x in rec.get(k, [])) for k in ("docs", "got", "want")), show(rec["proj"]),
                         (" panic=" + rec["panic"]) if "panic" in rec else ""), rec)
         bads, lines, indom, outdom = pure.validate(c, d)
         c.add("traces_validated_against_impl", summary["cases"])
